@@ -10,6 +10,8 @@ import traceback
 REGISTRY = {
     "C01": ("vf.props.value", "C01"),
     "C02": ("vf.props.value", "C02"),
+    "C06": ("vf.props.rules_struct", "C06"),
+    "C07": ("vf.props.rules_struct", "C07"),
 }
 
 
